@@ -9,14 +9,21 @@ DRIVER = 'drv_c18'
 HARNESS = 'c18.cpp'
 SOURCES = ['src/diagnostics/CheckupReliability.cpp', 'src/diagnostics/Diagnostic.cpp',
            'src/diagnostics/DiagnosticReport.cpp', 'src/diagnostics/DiagnosticStatus.cpp']
-PROOF_MODULES = ['RomeaProofs.Properties.C18', 'RomeaProofs.Bridge.C18', 'RomeaProofs.Bridge.C18Cor']
+PROOF_MODULES = ['RomeaProofs.Properties.C18', 'RomeaProofs.Bridge.C18', 'RomeaProofs.Bridge.C18Cor',
+                 'RomeaProofs.Bridge.C18Report', 'RomeaProofs.Bridge.C18ReportCor']
 TRUSTED = ['C++ harness harness/c18.cpp maps message strings to classes and compares the info string with ostringstream<<value',
            'tools/cxx2lean.py (Python over clang-14\'s JSON AST) translates CheckupEqualTo/GreaterThan/LowerThan<double>::evaluate, '
            'Checkup<double>::timeout/setDiagnostic_/setValue_/getStatus_, CheckupReliability::evaluate and worse() from the working tree into '
            'RomeaModel/Generated/SrcC18.lean on every run; RomeaProofs/Bridge/C18*.lean prove them equal to the model for every scalar type. '
            'Trusted inside the translator: report_.diagnostics.front() and report_.info.begin() are fixed locations (the check-ups hold exactly '
            'one diagnostic and one info entry), std::string is Lean String, toStringInfoValue is an uninterpreted function, the lock_guard has '
-           'no sequential meaning, the enum DiagnosticStatus is its underlying integer']
+           'no sequential meaning, the enum DiagnosticStatus is its underlying integer. worseStatus, allOK (Diagnostic.cpp) and '
+           'operator+=(DiagnosticReport &, const DiagnosticReport &) are translated with the spec option whole_containers: a '
+           'std::list<Diagnostic> is a List (String x Int) (message, status), a std::map<string,string> the list of its entries in ascending '
+           'key order (order / uniqueness of keys = an invariant of that representation, kept by the generated mapInsertNew), iterators are '
+           'indexes; Bridge/C18Report.lean proves them equal to the model\'s worseStatus / allOK / append (through arbitrary namings of the '
+           'model\'s message / key / value identifiers, the key naming strictly monotone and injective), Bridge/C18ReportCor.lean restates '
+           'worseStatus_is_max, allOK_iff, append_spec about the translated functions']
 ASSUMPTIONS = ['theorems are over the reals on the exact values of the doubles; the rounding of t-eps / t+eps (sub-ulp window) is '
                'covered only by the correspondence check, and the probe accepts either classification inside that window']
 EXPLANATION = 'proof of the threshold/aggregation laws on the Lean model + differential correspondence + boundary probe'
@@ -290,7 +297,11 @@ BRIDGE_SPEC = {
     'id': 'C18',
     'headers': ['romea_core_common/diagnostic/CheckupEqualTo.hpp', 'romea_core_common/diagnostic/CheckupGreaterThan.hpp',
                 'romea_core_common/diagnostic/CheckupLowerThan.hpp'],
-    'sources': ['src/diagnostics/CheckupReliability.cpp', 'src/diagnostics/DiagnosticStatus.cpp'],
+    'sources': ['src/diagnostics/CheckupReliability.cpp', 'src/diagnostics/DiagnosticStatus.cpp', 'src/diagnostics/Diagnostic.cpp',
+                'src/diagnostics/DiagnosticReport.cpp'],
+    # `std::list<Diagnostic>` is a `List (String × Int)` (message, status), `std::map<std::string, std::string>` its entry list in
+    # ascending key order; iterators are indexes (worseStatus, allOK, operator+=)
+    'whole_containers': True,
     'extra': ['namespace romea { namespace core {', 'template class Checkup<double>;', 'template class CheckupEqualTo<double>;', 'template class CheckupGreaterThan<double>;',
               'template class CheckupLowerThan<double>;', '}}'],
     # `toStringInfoValue(v)` (ostringstream << v) is kept as an uninterpreted function: a parameter of the translated functions
@@ -302,6 +313,9 @@ BRIDGE_SPEC = {
         {'cxx': 'CheckupLowerThan::evaluate'},
         {'cxx': 'CheckupReliability::evaluate'},
         {'cxx': 'Checkup::timeout'},
+        {'cxx': 'worseStatus'},
+        {'cxx': 'allOK'},
+        {'cxx': 'operator+=', 'sig': 'DiagnosticReport'},
     ],
 }
 
